@@ -173,8 +173,9 @@ def _worker(args):
             return sorted(set([c[0]] + c[step::step][:k - 1]))
         picks = [(j, "accept") for j in spread(cand_ok, opts["per_hint"])] + \
                 [(j, "reject") for j in spread(cand_bad, opts["per_hint_reject"])]
-        if mode == "C10":
-            picks += [(j, "any") for j, o in enumerate(objs) if o["k"] == "iter"][:4]
+        # iterables that are not collections (one-shot iterators, generator objects, sized iterators): C09 says they
+        # are not iterated at all, C10 that they are not consumed
+        picks += [(j, "any") for j, o in enumerate(objs) if o["k"] == "iter" and o["items"]][:6 if mode == "C10" else 3]
 
         @deco
         def f_param(a: hint):
@@ -213,7 +214,8 @@ def _worker(args):
                     mutated = before != after
                     if inner is not None and (inner[0] != id(x) or inner[1] != before):
                         mutated = True
-                    known = {"getitem", "next", "len", "iter", "keys", "values", "items", "repr"} | spy.FORBIDDEN
+                    # hash: indexing a mapping with one of its own keys hashes that key (part of "indexing")
+                    known = {"getitem", "next", "len", "iter", "keys", "values", "items", "repr", "hash"} | spy.FORBIDDEN
                     ev = {"ev": "Check", "grp": grp_base + grp if n >= 1 and o["k"] != "iter" else 0, "n": n,
                           "h": h, "hid": hid, "obj": sem.short_obj(o)[:80], "entry": entry,
                           "path": "accept" if ok else "reject",
